@@ -112,6 +112,9 @@ def worker(args):
             rcfg = dict(cfg)
             rcfg.update({"ground": K, "unroll": K, "timeout_ms": cfg.get("refute_timeout_ms", 20000), "both": False,
                          "stop_after_failures": 12, "cvc5": False, "fuc_budget_s": cfg.get("refute_budget_s", 120)})
+            if not any(o["kind"] == "loopinv" for o in bad) and any(o["kind"] != "budget" for o in bad):
+                # (a failing loop obligation has no counterpart once loops are unrolled: then every obligation is looked at)
+                rcfg["only_obligations"] = {o["name"] for o in bad if o["kind"] != "budget"}
             rres = verify_fuc(key, rcfg)
             if rres.error:
                 out["refutations"].append({"bound": K, "error": rres.error})
@@ -325,7 +328,21 @@ def report(prop, tier, seed, results, known, assumed, t0, verbose):
                 if mine and len(denied) == len(mine) and not sat_proof:
                     undecided.append((name, "counter-model of the grounded VC does not reproduce natively"))
                 elif denied and sat_proof and len(denied) == len(mine):
-                    undecided.append((name, "counter-model does not reproduce natively (weak callee contract or invariant?)"))
+                    # a definite counter-model of the full VC that the real function does not show from that entry state.
+                    # If the function calls callees whose behaviour is only ASSUMED (assumed or dispatch contracts: dynamic
+                    # receivers, the rest of the network), the replay -- which runs the real callees on blank objects -- cannot
+                    # realise what the model lets them do (e.g. re-entrant sends), so the counter-model stands and is reported
+                    # without an input; if every callee contract involved is itself proved, the disagreement means a contract
+                    # is too weak and nothing is concluded.
+                    assumed_used = [l for l in r["log"] if "dispatch contract" in l or
+                                    (l.startswith("contract ") and l.split(" ")[1] in REG.contracts and not REG.contracts[l.split(" ")[1]].verify)]
+                    if assumed_used:
+                        doc["note"] = ("counter-model of the full verification condition; the native replay cannot realise the behaviour of "
+                                       "assumed callees: " + "; ".join(assumed_used[:3]))
+                        json.dump(doc, open(fn, "w"), indent=1, default=str)
+                        violations.append((name, fn, False))
+                    else:
+                        undecided.append((name, "counter-model does not reproduce natively (weak callee contract or invariant?)"))
                 else:
                     json.dump(doc, open(fn, "w"), indent=1, default=str)
                     violations.append((name, fn, False))
